@@ -351,6 +351,7 @@ func (c *RemoteClient) SendTxAndMarkOutputs(ctx context.Context, tx *wire.MsgTx,
 		Indexes: indexes,
 	}
 	if err := c.sendMessage(ctx, &Message{Payload: m}, messageTimeout); err != nil {
+		c.removeRequest(request, messageTimeout) // nothing will answer it
 		return err
 	}
 
@@ -427,6 +428,7 @@ func (c *RemoteClient) SendExpandedTxAndMarkOutputs(ctx context.Context,
 		Indexes: indexes,
 	}
 	if err := c.sendMessage(ctx, &Message{Payload: m}, messageTimeout); err != nil {
+		c.removeRequest(request, messageTimeout) // nothing will answer it
 		return err
 	}
 
@@ -522,6 +524,7 @@ func (c *RemoteClient) SaveTxs(ctx context.Context, txs expanded_tx.AncestorTxs)
 		Txs: txs,
 	}
 	if err := c.sendMessage(ctx, &Message{Payload: m}, messageTimeout); err != nil {
+		c.removeRequest(request, messageTimeout) // nothing will answer it
 		return err
 	}
 
@@ -618,6 +621,7 @@ func (c *RemoteClient) GetTx(ctx context.Context, txid bitcoin.Hash32) (*wire.Ms
 	}, "Sending get tx request")
 	m := &GetTx{TxID: txid}
 	if err := c.sendMessage(ctx, &Message{Payload: m}, messageTimeout); err != nil {
+		c.removeRequest(request, messageTimeout) // nothing will answer it
 		return nil, err
 	}
 
@@ -738,6 +742,7 @@ func (c *RemoteClient) GetHeaders(ctx context.Context, height, count int) (*Head
 		MaxCount:      uint32(count),
 	}
 	if err := c.sendMessage(ctx, &Message{Payload: m}, messageTimeout); err != nil {
+		c.removeRequest(request, messageTimeout) // nothing will answer it
 		return nil, err
 	}
 
@@ -826,6 +831,7 @@ func (c *RemoteClient) GetHeader(ctx context.Context, blockHash bitcoin.Hash32) 
 		BlockHash: blockHash,
 	}
 	if err := c.sendMessage(ctx, &Message{Payload: m}, messageTimeout); err != nil {
+		c.removeRequest(request, messageTimeout) // nothing will answer it
 		return nil, err
 	}
 
@@ -921,6 +927,7 @@ func (c *RemoteClient) GetFeeQuotes(ctx context.Context) (merchant_api.FeeQuotes
 	}, "Sending get fee quotes message")
 	m := &GetFeeQuotes{}
 	if err := c.sendMessage(ctx, &Message{Payload: m}, messageTimeout); err != nil {
+		c.removeRequest(request, messageTimeout) // nothing will answer it
 		return nil, err
 	}
 
@@ -992,6 +999,7 @@ func (c *RemoteClient) ReprocessTx(ctx context.Context, txid bitcoin.Hash32,
 		ClientIDs: clientIDs,
 	}
 	if err := c.sendMessage(ctx, &Message{Payload: m}, messageTimeout); err != nil {
+		c.removeRequest(request, messageTimeout) // nothing will answer it
 		return err
 	}
 
@@ -1064,6 +1072,7 @@ func (c *RemoteClient) MarkHeaderInvalid(ctx context.Context, blockHash bitcoin.
 		BlockHash: blockHash,
 	}
 	if err := c.sendMessage(ctx, &Message{Payload: m}, messageTimeout); err != nil {
+		c.removeRequest(request, messageTimeout) // nothing will answer it
 		return err
 	}
 
@@ -1136,6 +1145,7 @@ func (c *RemoteClient) MarkHeaderNotInvalid(ctx context.Context, blockHash bitco
 		BlockHash: blockHash,
 	}
 	if err := c.sendMessage(ctx, &Message{Payload: m}, messageTimeout); err != nil {
+		c.removeRequest(request, messageTimeout) // nothing will answer it
 		return err
 	}
 
